@@ -428,11 +428,32 @@ Proof.
   - apply grows_same_events. reflexivity.
 Qed.
 
+(* the state the loop leaves after c :: t is the state c left, or the state the loop over t left from there *)
+Lemma run_callbacks_fst_cases fuel codes e c t s :
+  fst (run_callbacks fuel codes e (c :: t) s) = fst (run_cb fuel codes e c s) \/
+  fst (run_callbacks fuel codes e (c :: t) s) = fst (run_callbacks fuel codes e t (fst (run_cb fuel codes e c s))).
+Proof.
+  cbn [run_callbacks]. destruct (run_cb fuel codes e c s) as [s1 r]. cbn [fst].
+  destruct r; try (right; reflexivity);
+    (destruct (is_stop_cb c && is_exit _); [|left; reflexivity];
+     destruct (run_callbacks fuel codes e t s1) as [s2 r2]; right; destruct r2; reflexivity).
+Qed.
+
+(* a relation (and an invariant) kept by every callback is kept by the loop *)
+Lemma run_callbacks_rel fuel codes e (Q : state -> Prop) (P : state -> state -> Prop) :
+  (forall s, P s s) -> (forall a b c, P a b -> P b c -> P a c) ->
+  (forall c s, Q s -> P s (fst (run_cb fuel codes e c s)) /\ Q (fst (run_cb fuel codes e c s))) ->
+  forall l s, Q s -> P s (fst (run_callbacks fuel codes e l s)) /\ Q (fst (run_callbacks fuel codes e l s)).
+Proof.
+  intros Prefl Ptrans Hcb. induction l as [|c t IH]; intros s Qs; [cbn; auto|].
+  destruct (Hcb c s Qs) as [P1 Q1]. destruct (IH _ Q1) as [P2 Q2].
+  destruct (run_callbacks_fst_cases fuel codes e c t s) as [E|E]; rewrite E; [auto|]. split; [eapply Ptrans; eauto|exact Q2].
+Qed.
+
 Lemma grows_run_callbacks fuel codes e l : forall s, grows s (fst (run_callbacks fuel codes e l s)).
 Proof.
-  induction l as [|c t IH]; intros s; cbn [run_callbacks fst]; [apply grows_refl|].
-  pose proof (grows_run_cb fuel codes e c s) as X. destruct (run_cb fuel codes e c s) as [s1 r]. cbn [fst] in X.
-  destruct r; try exact X. eapply grows_trans; [exact X|apply IH].
+  intros s. apply (run_callbacks_rel fuel codes e (fun _ => True) grows grows_refl grows_trans); [|exact I].
+  intros c s0 _. split; [apply grows_run_cb|exact I].
 Qed.
 
 Lemma grows_pop_state m rest s : grows s (pop_state m rest s).
@@ -492,19 +513,22 @@ Lemma grows_exec_top {A} codes (f : frag A) s : grows s (fst (exec_top codes f s
 Proof. apply grows_run_frag. Qed.
 
 (* ------------------------------------------------------------------------------------------------ *)
-(* executions: any sequence of module-level code, step() and run() calls, with any fuel and any result *)
+(* executions: any sequence of module-level code, step() and run() calls (and the prelude of run() alone, so that the
+   inside of a run() is an execution too), with any fuel and any result *)
 
 Inductive later (codes : list prog) : state -> state -> Prop :=
 | later_refl s : later codes s s
 | later_top s s' A (f : frag A) : later codes s s' -> later codes s (fst (exec_top codes f s'))
+| later_prelude s s' u s1 : later codes s s' -> run_prelude u s' = inr s1 -> later codes s s1
 | later_step s s' fuel : later codes s s' -> later codes s (fst (step fuel codes s'))
 | later_run s s' fuel u : later codes s s' -> later codes s (fst (run fuel codes u s')).
 
 Lemma later_grows codes s s' : later codes s s' -> grows s s'.
 Proof.
-  induction 1 as [s|s s' A f _ IH|s s' fuel _ IH|s s' fuel u _ IH].
+  induction 1 as [s|s s' A f _ IH|s s' u s1 _ IH P|s s' fuel _ IH|s s' fuel u _ IH].
   - apply grows_refl.
   - eapply grows_trans; [exact IH|apply grows_exec_top].
+  - eapply grows_trans; [exact IH|eapply grows_run_prelude, P].
   - eapply grows_trans; [exact IH|apply grows_step].
   - eapply grows_trans; [exact IH|apply grows_run].
 Qed.
@@ -537,12 +561,16 @@ Qed.
 (* ------------------------------------------------------------------------------------------------ *)
 (* the callback loop of step() *)
 
+(* what a callback may answer without ending the loop: it returns, or it is the stop callback of run(until) and raises
+   StopSimulation / the failure of the until-event -- step() remembers that and raises it after the loop (repaired code) *)
+Definition cb_ok (c : cb) (r : result) : Prop := r = ROk \/ (is_stop_cb c = true /\ is_exit r = true).
+
 (* [cb_chain fuel codes e l s s']: the callbacks l were invoked for e one after the other, in list order, each once,
-   each returning normally, taking the state from s to s' *)
+   none of them ending the loop, taking the state from s to s' *)
 Inductive cb_chain (fuel : nat) (codes : list prog) (e : evid) : list cb -> state -> state -> Prop :=
 | chain_nil s : cb_chain fuel codes e [] s s
-| chain_cons c t s s1 s' :
-    run_cb fuel codes e c s = (s1, ROk) -> cb_chain fuel codes e t s1 s' -> cb_chain fuel codes e (c :: t) s s'.
+| chain_cons c t s s1 r s' :
+    run_cb fuel codes e c s = (s1, r) -> cb_ok c r -> cb_chain fuel codes e t s1 s' -> cb_chain fuel codes e (c :: t) s s'.
 
 Lemma cb_chain_app fuel codes e l1 l2 s s1 s2 :
   cb_chain fuel codes e l1 s s1 -> cb_chain fuel codes e l2 s1 s2 -> cb_chain fuel codes e (l1 ++ l2) s s2.
@@ -550,29 +578,79 @@ Proof. induction 1; cbn; [auto|]. intros H2. econstructor; eauto. Qed.
 
 Lemma cb_chain_grows fuel codes e l s s' : cb_chain fuel codes e l s s' -> grows s s'.
 Proof.
-  induction 1 as [s|c t s s1 s' R _ IH]; [apply grows_refl|].
+  induction 1 as [s|c t s s1 r s' R _ _ IH]; [apply grows_refl|].
   eapply grows_trans; [|exact IH]. pose proof (grows_run_cb fuel codes e c s) as X. now rewrite R in X.
 Qed.
 
-(* either all of l was invoked, or a prefix, the next callback letting something escape (the rest is dropped) *)
+Lemma not_ok_cases (r : result) : r = ROk \/ r <> ROk.
+Proof. destruct r; auto; right; discriminate. Qed.
+
+Lemma match_not_ok {A} (r : result) (a b : A) : r <> ROk ->
+  match r with ROk => a | _ => b end = b.
+Proof. destruct r; [contradiction| | | | |]; reflexivity. Qed.
+
+Lemma is_exit_not_ok r : is_exit r = true -> r <> ROk.
+Proof. destruct r; discriminate. Qed.
+
+(* one turn of the loop, for a callback that did not return normally *)
+Lemma run_callbacks_cons_not_ok fuel codes e c t s s1 r :
+  run_cb fuel codes e c s = (s1, r) -> r <> ROk ->
+  run_callbacks fuel codes e (c :: t) s =
+  if is_stop_cb c && is_exit r
+  then let '(s2, r2) := run_callbacks fuel codes e t s1 in match r2 with ROk => (s2, r) | _ => (s2, r2) end
+  else (s1, r).
+Proof. intros R N. cbn [run_callbacks]. rewrite R. destruct r; [contradiction| | | | |]; reflexivity. Qed.
+
+(* either all of l was invoked (and the loop ends normally or with the remembered stop), or a prefix, the next callback
+   letting something escape (the rest is dropped) *)
 Lemma run_callbacks_spec fuel codes e : forall l s s' r,
   run_callbacks fuel codes e l s = (s', r) ->
-  (r = ROk /\ cb_chain fuel codes e l s s') \/
+  (cb_chain fuel codes e l s s' /\ (r = ROk \/ is_exit r = true)) \/
   (exists pre c post smid, l = pre ++ c :: post /\ cb_chain fuel codes e pre s smid /\
-                           run_cb fuel codes e c smid = (s', r) /\ r <> ROk).
+                           run_cb fuel codes e c smid = (s', r) /\ ~ cb_ok c r).
 Proof.
-  induction l as [|c t IH]; intros s s' r; cbn [run_callbacks].
-  - intros H; injection H as <- <-. left. split; [reflexivity|constructor].
-  - destruct (run_cb fuel codes e c s) as [s1 r1] eqn:R.
-    destruct r1; try (intros H; injection H as <- <-; right; exists [], c, t, s;
-                      split; [reflexivity|split; [constructor|split; [exact R|discriminate]]]).
-    intros H. destruct (IH _ _ _ H) as [[-> Ch]|(pre & c' & post & smid & -> & Ch & R' & N)].
-    + left. split; [reflexivity|econstructor; eauto].
-    + right. exists (c :: pre), c', post, smid. split; [reflexivity|]. split; [econstructor; eauto|]. auto.
+  induction l as [|c t IH]; intros s s' r.
+  - cbn [run_callbacks]. intros H; injection H as <- <-. left. split; [constructor|left; reflexivity].
+  - destruct (run_cb fuel codes e c s) as [s1 r1] eqn:R. destruct (not_ok_cases r1) as [->|N].
+    + cbn [run_callbacks]. rewrite R. intros H.
+      destruct (IH _ _ _ H) as [[Ch Rr]|(pre & c' & post & smid & -> & Ch & R' & NK)].
+      * left. split; [econstructor; [exact R|left; reflexivity|exact Ch]|exact Rr].
+      * right. exists (c :: pre), c', post, smid. split; [reflexivity|].
+        split; [econstructor; [exact R|left; reflexivity|exact Ch]|]. auto.
+    + rewrite (run_callbacks_cons_not_ok _ _ _ _ t _ _ _ R N).
+      destruct (is_stop_cb c && is_exit r1) eqn:SE.
+      * apply andb_true_iff in SE. destruct SE as [Sc Ex].
+        destruct (run_callbacks fuel codes e t s1) as [s2 r2] eqn:R2.
+        destruct (IH _ _ _ R2) as [[Ch Rr]|(pre & c' & post & smid & -> & Ch & R' & NK)].
+        -- destruct (not_ok_cases r2) as [->|N2].
+           ++ intros H; injection H as <- <-. left.
+              split; [econstructor; [exact R|right; auto|exact Ch]|right; exact Ex].
+           ++ rewrite (match_not_ok r2 _ _ N2). intros H; injection H as <- <-. left.
+              split; [econstructor; [exact R|right; auto|exact Ch]|]. destruct Rr as [->|Rr]; [contradiction|right; exact Rr].
+        -- assert (N2 : r2 <> ROk) by (intros ->; apply NK; left; reflexivity).
+           rewrite (match_not_ok r2 _ _ N2). intros H; injection H as <- <-. right.
+           exists (c :: pre), c', post, smid. split; [reflexivity|].
+           split; [econstructor; [exact R|right; auto|exact Ch]|]. auto.
+      * intros H; injection H as <- <-. right. exists [], c, t, s. split; [reflexivity|]. split; [constructor|].
+        split; [exact R|]. intros [->|[Sc Ex]]; [contradiction|]. rewrite Sc, Ex in SE. discriminate.
 Qed.
 
-Lemma cb_chain_run fuel codes e : forall l s s', cb_chain fuel codes e l s s' -> run_callbacks fuel codes e l s = (s', ROk).
-Proof. induction 1 as [s|c t s s1 s' R _ IH]; cbn [run_callbacks]; [reflexivity|]. now rewrite R. Qed.
+(* a loop that ran through: run_callbacks returns its end state; without a stop callback it returns normally *)
+Lemma cb_chain_run fuel codes e : forall l s s', cb_chain fuel codes e l s s' ->
+  exists r, run_callbacks fuel codes e l s = (s', r) /\ (r = ROk \/ is_exit r = true) /\
+            ((forall c, In c l -> is_stop_cb c = false) -> r = ROk).
+Proof.
+  induction 1 as [s|c t s s1 r0 s' R K _ (r & IH & Rr & Ns)].
+  - exists ROk. cbn. auto.
+  - destruct K as [->|[Sc Ex]].
+    + exists r. cbn [run_callbacks]. rewrite R. split; [exact IH|]. split; [exact Rr|].
+      intros H. apply Ns. intros c' Hc'. apply H. right. exact Hc'.
+    + rewrite (run_callbacks_cons_not_ok _ _ _ _ t _ _ _ R (is_exit_not_ok _ Ex)), Sc, Ex, IH. cbn [andb].
+      destruct (not_ok_cases r) as [->|N].
+      * exists r0. split; [reflexivity|]. split; [right; exact Ex|]. intros H. specialize (H c (or_introl eq_refl)). congruence.
+      * exists r. rewrite (match_not_ok r _ _ N). split; [reflexivity|]. split; [exact Rr|].
+        intros H. specialize (H c (or_introl eq_refl)). congruence.
+Qed.
 
 (* the state in which the callback loop of the step that pops m starts *)
 Definition loop_start (m : entry) (rest : list entry) (s : state) : state :=
@@ -590,17 +668,32 @@ Proof. intros H. unfold loop_start. apply get_upd_event_same. exact H. Qed.
 Lemma step_invokes fuel codes s s' r m rest ev l :
   step fuel codes s = (s', r) -> pop_min (agenda s) = Some (m, rest) ->
   get_event (e_ev m) s = Some ev -> cbs ev = Some l ->
-  (cb_chain fuel codes (e_ev m) l (loop_start m rest s) s' /\ r = check_failure (e_ev m) s') \/
+  (cb_chain fuel codes (e_ev m) l (loop_start m rest s) s' /\
+   (r = check_failure (e_ev m) s' \/ is_exit r = true) /\
+   ((forall c, In c l -> is_stop_cb c = false) -> r = check_failure (e_ev m) s')) \/
   (exists pre c post smid, l = pre ++ c :: post /\ cb_chain fuel codes (e_ev m) pre (loop_start m rest s) smid /\
-                           run_cb fuel codes (e_ev m) c smid = (s', r) /\ r <> ROk).
+                           run_cb fuel codes (e_ev m) c smid = (s', r) /\ ~ cb_ok c r).
 Proof.
   intros St P H C. unfold step in St. rewrite P in St. rewrite get_event_pop_state, H, C in St.
   fold (loop_start m rest s) in St.
   destruct (run_callbacks fuel codes (e_ev m) l (loop_start m rest s)) as [s2 r2] eqn:R.
-  destruct (run_callbacks_spec _ _ _ _ _ _ _ R) as [[-> Ch]|(pre & c & post & smid & -> & Ch & R' & N)].
-  - injection St as <- <-. left. auto.
-  - right. exists pre, c, post, smid. assert (s' = s2 /\ r = r2) as [-> ->] by (destruct r2; injection St as <- <-; auto; contradiction).
-    auto.
+  destruct (run_callbacks_spec _ _ _ _ _ _ _ R) as [[Ch Rr]|(pre & c & post & smid & -> & Ch & R' & N)].
+  - left. destruct (cb_chain_run _ _ _ _ _ _ Ch) as (r3 & R3 & _ & Ns). rewrite R in R3. injection R3 as <-.
+    destruct (not_ok_cases r2) as [->|N2].
+    + injection St as <- <-. split; [exact Ch|]. split; [left; reflexivity|reflexivity].
+    + rewrite (match_not_ok r2 _ _ N2) in St. injection St as <- <-. split; [exact Ch|].
+      split; [destruct Rr as [->|Rr]; [contradiction|right; exact Rr]|]. intros H0. contradiction (N2 (Ns H0)).
+  - right. exists pre, c, post, smid. assert (N2 : r2 <> ROk) by (intros ->; apply N; left; reflexivity).
+    rewrite (match_not_ok r2 _ _ N2) in St. injection St as <- <-. auto.
+Qed.
+
+(* when the loop ran through, step() leaves the state the loop left *)
+Lemma step_fst_chain fuel codes s m rest ev l s' :
+  pop_min (agenda s) = Some (m, rest) -> get_event (e_ev m) s = Some ev -> cbs ev = Some l ->
+  cb_chain fuel codes (e_ev m) l (loop_start m rest s) s' -> fst (step fuel codes s) = s'.
+Proof.
+  intros P G C Ch. destruct (cb_chain_run _ _ _ _ _ _ Ch) as (r & R & _).
+  unfold step. rewrite P, get_event_pop_state, G, C. fold (loop_start m rest s). rewrite R. destruct r; reflexivity.
 Qed.
 
 (* an event that is popped although it is already processed (it was scheduled twice): TypeError before any callback *)
